@@ -136,8 +136,8 @@ func (c *choicesCase) GetLowestPriorityValue() int32 {
 func (c *choicesCase) GetLowestPriorityValueOld() int32 {
 	result := int32(math.MaxInt32)
 	for _, cas := range c.elements {
-		if !cas.new && cas.value < result {
-			result = cas.value
+		if cas.oldValue < result {
+			result = cas.oldValue
 		}
 	}
 	return result
@@ -147,13 +147,16 @@ type choicesCaseElement struct {
 	name  string
 	value int32
 	new   bool
+	// oldValue is the precedence the branch had before the actual transaction
+	oldValue int32
 }
 
 func (c *choicesCaseElement) deepCopy() *choicesCaseElement {
 	return &choicesCaseElement{
-		name:  c.name,
-		value: c.value,
-		new:   c.new,
+		name:     c.name,
+		value:    c.value,
+		new:      c.new,
+		oldValue: c.oldValue,
 	}
 }
 
@@ -174,8 +177,9 @@ func (c *choiceCasesResolver) AddCase(name string, elements []string) *choicesCa
 	for _, e := range elements {
 		c.elementToCaseMapping[e] = name
 		c.cases[name].elements[e] = &choicesCaseElement{
-			name:  e,
-			value: int32(math.MaxInt32),
+			name:     e,
+			value:    int32(math.MaxInt32),
+			oldValue: int32(math.MaxInt32),
 		}
 	}
 	return c.cases[name]
@@ -191,6 +195,12 @@ func (c *choiceCasesResolver) SetValue(elemName string, v int32, new bool) {
 	actualCase := c.elementToCaseMapping[elemName]
 	c.cases[actualCase].elements[elemName].value = v
 	c.cases[actualCase].elements[elemName].new = new
+}
+
+// SetOldValue sets the priority value the given element with its entire branch had before the actual transaction
+func (c *choiceCasesResolver) SetOldValue(elemName string, v int32) {
+	actualCase := c.elementToCaseMapping[elemName]
+	c.cases[actualCase].elements[elemName].oldValue = v
 }
 
 // GetBestCaseName returns the name of the case, that has the highes priority
